@@ -24,6 +24,18 @@ func genFor(c cellSpec) func(src, cellSpec, *params) *tcase {
 	return nil
 }
 
+// faultCells: every kind x the release operations a harness-owned fake (or harness-owned kernel map / RADIUS server)
+// can make fail once.  pppoe.Server has no fallible release operation (its pool's Release returns nothing, main.go
+// attaches nothing else), so it has no fault cells.
+func faultCells() []cellSpec {
+	var out []cellSpec
+	out = append(out, dhcpFaultCells("dhcp")...)
+	out = append(out, dhcpFaultCells("dhcp-relay")...)
+	out = append(out, teardownFaultCells()...)
+	out = append(out, submgrFaultCells()...)
+	return out
+}
+
 // allCells is the enumerated product {kind} x {path} x {prefix} x {second termination (+ park point)}.
 func allCells() []cellSpec {
 	var out []cellSpec
@@ -36,6 +48,7 @@ func allCells() []cellSpec {
 	out = append(out, submgrCells(false)...)
 	out = append(out, submgrCells(true)...)
 	out = append(out, submgrStaleCells()...)
+	out = append(out, faultCells()...)
 	return out
 }
 
@@ -60,10 +73,10 @@ func propRandom(t *testing.T, name string, cells []cellSpec, q, th int) {
 }
 
 func TestPropDHCPDirect(t *testing.T) {
-	propRandom(t, "TestPropDHCPDirect", dhcpCells("dhcp"), 700, 14000)
+	propRandom(t, "TestPropDHCPDirect", dhcpCells("dhcp"), 1000, 20000)
 }
 func TestPropDHCPRelay(t *testing.T) {
-	propRandom(t, "TestPropDHCPRelay", dhcpCells("dhcp-relay"), 700, 14000)
+	propRandom(t, "TestPropDHCPRelay", dhcpCells("dhcp-relay"), 1000, 20000)
 }
 func TestPropPPPoEServer(t *testing.T) {
 	propRandom(t, "TestPropPPPoEServer", pppoeCells(), 1500, 30000)
@@ -81,6 +94,8 @@ func TestPropSubMgr(t *testing.T) { propRandom(t, "TestPropSubMgr", submgrCells(
 func TestPropSubMgrParked(t *testing.T) {
 	propRandom(t, "TestPropSubMgrParked", submgrCells(true), 500, 10000)
 }
+
+func TestPropFaults(t *testing.T) { propRandom(t, "TestPropFaults", faultCells(), 900, 18000) }
 
 func TestPropSubMgrStale(t *testing.T) {
 	propRandom(t, "TestPropSubMgrStale", submgrStaleCells(), 300, 6000)
